@@ -305,7 +305,7 @@ def strat_cached(draw, tier):
     comp = {'chain': ['move_agent', 'turn_agent'], 'rewards': [{'name': 'living_reward', 'reward': -1.0}], 'term': {'name': 'reach_exit'},
             'obs': draw(st.sampled_from(['stochastic_raytracing', 'stochastic_raytracing', 'raytracing', 'partially_occluded'])), 'view': [draw(st.sampled_from([5, 7])), draw(st.sampled_from([5, 7]))]}
     ops = draw(st.lists(st.sampled_from(['reset', 'reset', 'obs', 'obs', 'step0', 'step4', 'scribble']), min_size=4, max_size=14))
-    return {'space': space, 'state': sd, 'comp': comp, 'seed': draw(st.integers(0, 2**31)), 'ops': ['reset', 'obs', 'reset', 'obs'] + ops}
+    return {'space': space, 'state': sd, 'comp': comp, 'seed': draw(st.integers(0, 2**31)), 'ops': ['reset', 'obs', 'reset', 'obs'] + ops, 'respawn': draw(st.booleans())}
 
 
 def oracle_cached(case, ctx):
@@ -317,9 +317,32 @@ def oracle_cached(case, ctx):
     space, sd, comp = case['space'], case['state'], case['comp']
     kept = objs.build_state(sd)
     ref = envs.mk_env(space, M.shape(sd), comp, reset_state=sd)
-    E = GridWorld(ref.state_space, ref.action_space, ref.observation_space, lambda *, rng=None: kept, envs.mk_transition(comp['chain']),
+    free = [p for p in M.positions(sd) if not M.blocks_movement(M.cell(sd, p))]
+    respawn = bool(case.get('respawn')) and len(free) > 1
+    calls = {'kept': 0, 'fresh': 0}
+
+    def reset_kept(*, rng=None):
+        # one State object for the whole run; with `respawn` the reset function re-spawns the agent in place (next free cell, next heading)
+        if respawn:
+            from gym_gridverse.geometry import Position
+            k = calls['kept']
+            kept.agent.position = Position(*free[k % len(free)])
+            kept.agent.orientation = objs.ori(objs.HEADINGS[k % 4])
+        calls['kept'] += 1
+        return kept
+
+    def reset_fresh(*, rng=None):
+        d2 = {'grid': sd['grid'], 'agent': list(sd['agent'])}
+        if respawn:
+            k = calls['fresh']
+            d2['agent'][0], d2['agent'][1], d2['agent'][2] = free[k % len(free)][0], free[k % len(free)][1], objs.HEADINGS[k % 4]
+        calls['fresh'] += 1
+        return objs.build_state(d2)
+
+    E = GridWorld(ref.state_space, ref.action_space, ref.observation_space, reset_kept, envs.mk_transition(comp['chain']),
                   envs.mk_obs(comp['obs'], gen.view_area(*comp['view'])), envs.mk_rewards(comp['rewards']), envs.mk_term(comp['term']))
-    T = envs.mk_env(space, M.shape(sd), comp, reset_state=sd)
+    T = GridWorld(ref.state_space, ref.action_space, ref.observation_space, reset_fresh, envs.mk_transition(comp['chain']),
+                  envs.mk_obs(comp['obs'], gen.view_area(*comp['view'])), envs.mk_rewards(comp['rewards']), envs.mk_term(comp['term']))
     traces = []
     for env in (E, T):
         env.set_seed(case['seed'])
@@ -344,13 +367,13 @@ def oracle_cached(case, ctx):
                 r, t = env.step(a)
                 tr.append(['step', float(r), bool(t), objs.canon_state(env.state)])
         traces.append(tr)
-    if objs.canon_state(kept) != sd:
+    if not respawn and objs.canon_state(kept) != sd:
         ctx.fail('the environment modified the State object its reset function keeps', {'kind': 'cached_reset'})
     if traces[0] != traces[1]:
         k = next(i for i, (x, y) in enumerate(zip(*traces)) if x != y)
         ctx.fail(f'an environment whose reset function returns the same State object every time diverges from a twin whose reset function builds a fresh equal state '
                  f'(observation function {comp["obs"]}; first difference at trace entry {k}: {traces[0][k][0]}; ops {case["ops"][:10]})', {'kind': 'cached_reset'})
-    ctx.ev.case(case, nt=True, classes=['obs:' + comp['obs'], 'reset_obs_reset'])
+    ctx.ev.case(case, nt=True, classes=['obs:' + comp['obs'], 'reset_obs_reset'] + (['respawn_in_place'] if respawn else []))
 
 
 CHECKS = [
@@ -359,6 +382,6 @@ CHECKS = [
           rule='rule-based machine (reset, step, rejected step outside a restricted action space, re-seeding, 1-3 observation reads, state read, outer state / observation reads with the returned arrays overwritten, representation swap) on perturbed shipped configurations vs. a functionally driven twin with the same seed',
           required=['read_before_and_after_change', 'mid_episode_reset', 'repeated_reads_stochastic', 'representation_swapped', 'reseeded', 'rejected_step_after_read_stochastic']),
     Check('cached_reset_object', oracle_cached, strategy=strat_cached, examples={'quick': 150, 'thorough': 600}, shards={'quick': 2, 'thorough': 8},
-          rule='GridWorld whose reset function returns the same State object every time x op lists starting reset, read, reset, read (then resets, reads, steps, a consumer writing into the observation it was given): same trace as a twin with a fresh-state reset function and the same seed',
-          required=['obs:stochastic_raytracing', 'reset_obs_reset']),
+          rule='GridWorld whose reset function returns the same State object every time (unchanged, or with the agent re-spawned in place) x op lists starting reset, read, reset, read (then resets, reads, steps, a consumer writing into the observation it was given): same trace as a twin with a fresh-state reset function and the same seed',
+          required=['obs:stochastic_raytracing', 'reset_obs_reset', 'respawn_in_place']),
 ]
